@@ -158,7 +158,8 @@ func (ctx *LeafExecuteContext) sendResponse(resultData [][]byte, err error) {
 		if stream == nil {
 			leafExecuteCtxLogger.Error("unable to get stream for write response, ignore result",
 				logger.String("target", receiver))
-			break
+			// the other receivers are still waiting for their response of this request
+			continue
 		}
 		var payload []byte
 		if resultData != nil {
